@@ -5,31 +5,31 @@ type sexp = A of string | L of sexp list
 let parse (s : string) : sexp =
   let n = Stdlib.String.length s in
   let pos = ref 0 in
-  let rec skip () = if !pos < n && (s.[!pos] = ' ' || s.[!pos] = '\t') then (incr pos; skip ()) in
+  let rec skip () = if !pos < n && ((Stdlib.String.get s (!pos)) = ' ' || (Stdlib.String.get s (!pos)) = '\t') then (incr pos; skip ()) in
   let rec one () =
     skip ();
     if !pos >= n then failwith "eof"
-    else if s.[!pos] = '(' then begin
+    else if (Stdlib.String.get s (!pos)) = '(' then begin
       incr pos;
       let items = ref [] in
       let rec loop () =
         skip ();
         if !pos >= n then failwith "unclosed"
-        else if s.[!pos] = ')' then incr pos
+        else if (Stdlib.String.get s (!pos)) = ')' then incr pos
         else (items := one () :: !items; loop ()) in
       loop (); L (Stdlib.List.rev !items)
-    end else if s.[!pos] = '"' then begin
+    end else if (Stdlib.String.get s (!pos)) = '"' then begin
       incr pos;
       let b = Buffer.create 16 in
       let rec loop () =
         if !pos >= n then failwith "unclosed string"
-        else if s.[!pos] = '\\' && !pos + 1 < n then (Buffer.add_char b s.[!pos+1]; pos := !pos + 2; loop ())
-        else if s.[!pos] = '"' then incr pos
-        else (Buffer.add_char b s.[!pos]; incr pos; loop ()) in
+        else if (Stdlib.String.get s (!pos)) = '\\' && !pos + 1 < n then (Buffer.add_char b (Stdlib.String.get s (!pos+1)); pos := !pos + 2; loop ())
+        else if (Stdlib.String.get s (!pos)) = '"' then incr pos
+        else (Buffer.add_char b (Stdlib.String.get s (!pos)); incr pos; loop ()) in
       loop (); A (Buffer.contents b)
     end else begin
       let st = !pos in
-      while !pos < n && s.[!pos] <> ' ' && s.[!pos] <> '(' && s.[!pos] <> ')' && s.[!pos] <> '\t' do incr pos done;
+      while !pos < n && (Stdlib.String.get s (!pos)) <> ' ' && (Stdlib.String.get s (!pos)) <> '(' && (Stdlib.String.get s (!pos)) <> ')' && (Stdlib.String.get s (!pos)) <> '\t' do incr pos done;
       A (Stdlib.String.sub s st (!pos - st))
     end in
   one ()
@@ -48,12 +48,12 @@ let rec int_of_nat = function O -> 0 | S n -> 1 + int_of_nat n
 
 (* decimal string <-> Z without overflow: schoolbook on digit lists *)
 let z_of_string (s : string) : coq_Z =
-  let neg = Stdlib.String.length s > 0 && s.[0] = '-' in
+  let neg = Stdlib.String.length s > 0 && (Stdlib.String.get s (0)) = '-' in
   let digits = if neg then Stdlib.String.sub s 1 (Stdlib.String.length s - 1) else s in
   if Stdlib.String.length digits <= 17 then z_of_int (int_of_string s)
   else begin
     (* repeated division by 2 of the decimal string *)
-    let d = Array.init (Stdlib.String.length digits) (fun i -> Char.code digits.[i] - 48) in
+    let d = Array.init (Stdlib.String.length digits) (fun i -> Char.code (Stdlib.String.get digits (i)) - 48) in
     let is_zero () = Array.for_all (fun x -> x = 0) d in
     let div2 () = let r = ref 0 in
       Array.iteri (fun i x -> let v = !r * 10 + x in d.(i) <- v / 2; r := v mod 2) d; !r in
